@@ -143,7 +143,13 @@ class CompositeTransform(SpatialTransform):
     ) -> Union[TCompositeTransform, Optional[Tensor]]:
         r"""Get or set data tensor on which transformations are conditioned."""
         if args or kwargs:
-            return shallow_copy(self).condition_(*args, **kwargs)
+            copy = shallow_copy(self)
+            # condition_() also conditions the individual transformations: use shallow copies of these
+            # instead of the modules which the shallow copy shares with this composite transformation
+            copy._transforms = ModuleDict(
+                {name: shallow_copy(transform) for name, transform in self.named_transforms()}
+            )
+            return copy.condition_(*args, **kwargs)
         return self._args, self._kwargs
 
     def condition_(self: TCompositeTransform, *args, **kwargs) -> TCompositeTransform:
